@@ -242,6 +242,12 @@ class ComponentLevel2( ComponentLevel1 ):
                 if isinstance( x, Signal ) and \
                    ( x.is_sliced_signal() or x in part_objs ):
                   raise UpdateFFNonTopLevelSignalError( s, func, nodelist[0].lineno )
+            # '@=' / '<<=' on a signal in a function: whether it is the right
+            # operator depends on the kind of block that calls the function,
+            # checked in _collect_vars
+            if is_func_write and any( isinstance( x, Signal ) for x in objs ):
+              s._dsl.func_write_ops.setdefault( func, [] ).append(
+                ( op, nodelist[0].lineno ) )
             all_objs |= objs
             continue
 
@@ -323,6 +329,7 @@ class ComponentLevel2( ComponentLevel1 ):
     s._dsl.func_reads  = {}
     s._dsl.func_writes = {}
     s._dsl.func_calls  = {}
+    s._dsl.func_write_ops = {}
     for name, func in s._dsl.name_func.items():
       s._dsl.func_reads [ func ] = extract_obj_from_names( func, name_rd[ name ] )
       s._dsl.func_writes[ func ] = extract_obj_from_names( func, name_wr[ name ],
@@ -372,6 +379,18 @@ class ComponentLevel2( ComponentLevel1 ):
             # Add all read/write of funcs to the outermost upblk
             s._dsl.all_upblk_reads [ blk ] |= m._dsl.func_reads[u]
             s._dsl.all_upblk_writes[ blk ] |= m._dsl.func_writes[u]
+
+            # '@=' in a function reached from an update_ff block is visible
+            # before the edge (and the flip overwrites it), '<<=' in a
+            # function reached from an update block is never committed
+            for op, lineno in m._dsl.func_write_ops.get( u, () ):
+              if blk in m._dsl.update_ff:
+                if isinstance( op, ast.MatMult ):
+                  raise UpdateFFBlockWriteError( m, u, '@=', lineno,
+                    "Fix the '@=' assignment with '<<=': the function is called from update_ff block {}".format( blk.__name__ ) )
+              elif isinstance( op, ast.LShift ):
+                raise UpdateBlockWriteError( m, u, '<<=', lineno,
+                  "Fix the '<<=' assignment with '@=': the function is called from update block {}".format( blk.__name__ ) )
 
             # A signal that an update_ff block writes through a function
             # is a flip-flop as well
